@@ -23,6 +23,23 @@ and, for seeded random float cells in the property's domain, makerings / assignt
 validated by TLC against TraceRings (tolerances from 1e-6 to 2.5 x limit, the default tolerance,
 several calls on one object).
 
+NEAR-DEGENERATE float cells at every scale (c03_lib.near_cells): angles 1e-4 .. 0.05 degrees off 90 / 120 /
+the rhombohedral angles, edges 1e-6 .. 1e-3 (relative) off each other, longest edge 20 .. 30 A (three in
+five), 8 .. 15 A, 3 .. 6 A, exactly degenerate controls; every centring; routes unitcell /
+unitcell_from_parameters / cellfromstring.  No integer form exists for them: the list (complete, sound,
+no duplicates, ascending, ds = |B.hkl|) and the ring positions are judged against the harness' own
+reciprocal metric (c03_lib.exact_gi: cell parameters -> direct metric -> adjugate / determinant) at a
+tolerance of 1e-9 RELATIVE to d-star; membership outside a relative margin of 1e-9 around the limit.
+
+OBJECT HISTORIES (specs/HklObject.tla, HklObject_q/_t.cfg): every history of three public calls
+(gethkls / makerings, two or three limits) on ONE object, in which a call may be left by an EXCEPTION
+(injected from the harness side at the first / middle / last call made by the body of gethkls or by the
+grouping loop of makerings - sys.setprofile, no edit of the code; Exception, KeyboardInterrupt,
+MemoryError in turn) or may be overlapped by a complete gethkls for another or the same limit (re-entrant
+request = the loop still running in another thread).  Every call that COMPLETES must return the list /
+ring table of its own arguments (exact brute force), the state unitcell.peaks / limit included.
+HklObject_limitfirst.cfg (limit recorded before the list exists) is the documented non-theorem.
+
 BIG instances (HklWalk SpecBig, HklWalk_big_q/_t.cfg; replayed by harness/c03_big.py in parallel
 worker processes): forms and limits whose candidate box (2hmax+1)(2kmax+1)(2lmax+1) holds 1.2e5 .. 2.0e6
 hkl - cubic, orthorhombic, long axis (an index reaches +-199 on each axis), hexagonal, monoclinic,
@@ -39,6 +56,8 @@ Verdicts
   property failure explained by the walk model -> VIOLATION, or KNOWN-FINDING when
         known_findings.json lists  C03-gethkls-oblique-walk  (reflections the walk model never
         reaches on that form; real list == model list, trace included) /  C03-centring-A-rule
+  a failure of a BIG worker process caused by the tree under test (exception inside ImageD11, unreadable
+        list / ring table, crash by a signal while a case is replayed) -> VIOLATION with the case as replay object
   conformance-only differences where the property holds are reported in the evidence, never as a
   violation (a repaired tree follows the `box` model of HklWalk.tla instead of the walk).
 """
@@ -54,6 +73,7 @@ F_TABLE = "C03-centring-A-rule"
 WALK_ACTIONS = ["HEnter", "HExhaust", "KEnter", "KExhaust", "LHitPresent", "LHitAbsent", "LFlip", "LBreak",
                 "LExhaust", "KNext", "KFlip", "KBreak", "HNext", "HFlip", "HBreak", "Sort", "Oracle"]
 RING_ACTIONS = ["Begin", "First", "Join", "Open", "Close", "Assign", "End"]
+OBJ_ACTIONS = ["CallHit", "CallMiss", "Nested", "Interrupt", "Finish", "Group"]
 MAX_FILES_PER_CLASS = 2
 
 
@@ -316,6 +336,219 @@ def history_route(chk, ucmod, recs, tally):
 
 
 # ----------------------------------------------------------------------------------------------
+# near-degenerate float cells at every scale: d-star judged against the harness' own metric
+
+def near_one(ucmod, cell, cen, dsmax, route, tol):
+    """one near-degenerate case: list clauses (relative tolerance) + ring table; returns (fails, what, uc)"""
+    via = {"unitcell": None, "parameters": "parameters", "string": "string"}[route]
+    if via == "string":
+        uc = ucmod.cellfromstring(" ".join(repr(float(x)) for x in cell) + " " + cen)
+    elif via == "parameters":
+        import c03_big as BG
+        uc = BG.make_cell(ucmod, cell, cen, True)
+    else:
+        uc = ucmod.unitcell(cell, cen)
+    peaks = uc.gethkls(dsmax)
+    fails, det = L.judge_float_list(cell, cen, dsmax, peaks, uc.B)
+    what = "%d listed, %d must be; %s missing %s extra %s" % (det.get("n_real", -1), det.get("n_must", -1),
+                                                          det.get("ds", ""), det.get("missing", []), det.get("extra", []))
+    if uc.limit != dsmax or (uc.peaks is not peaks and [list(p) for p in uc.peaks] != [list(p) for p in peaks]):
+        fails.append("state(unitcell.peaks/limit)")
+    if not fails and len(peaks):
+        # rings on this list (the cached list when limit + tol == dsmax): partition clauses, grouping rule, and
+        # every ring position is the d-star of its first member = |B.hkl| from the cell parameters
+        import c03_big as BG
+        limit = BG.split_limit(dsmax, tol)
+        if limit is not None and limit > 0:
+            uc.makerings(limit, tol)
+            f2, det2 = L.judge_float_list(cell, cen, dsmax, uc.peaks, uc.B)
+            rf, starts = L.judge_rings_np(uc, tol)
+            if not rf and not f2:
+                ex = det2["ex"][starts]
+                rd = np.array(uc.ringds, float)
+                if (np.abs(rd - ex) > 1e-9 * ex).any():
+                    rf = ["ringds value"]
+            if f2 or rf:
+                fails += ["rings:" + x for x in (f2 + rf)]
+                what += "; makerings(limit=%r, tol=%r): %s" % (limit, tol, f2 + rf)
+    return fails, what, uc
+
+
+def near_degenerate_cases(chk, ucmod, n, tally, rng):
+    """instance family `near-degenerate cells at every scale` (value-dependent handling of ALMOST special
+    metrics: thresholds on the metric that are absolute where they had to be relative)"""
+    done = 0
+    for i, (kind, cell) in enumerate(L.near_cells(rng, n)):
+        cen = L.LETTERS[(i // 3 + i) % 7]
+        if cen == "R" and kind not in ("hex-near", "rhomb-near"):
+            cen = "P"
+        a, b, c = cell[:3]
+        ncand = rng.uniform(500, 2600)
+        dsmax = (ncand / (8.0 * a * b * c)) ** (1.0 / 3.0) * rng.uniform(1.0, 1.6)
+        route = ("unitcell", "unitcell", "parameters", "string")[i % 4]
+        tol = (1e-3, dsmax * 10 ** rng.uniform(-4, -2), 10 ** rng.uniform(-5, -3))[i % 3]
+        case = {"kind": "near", "cell": list(cell), "cen": cen, "dsmax": dsmax, "route": route, "tol": tol, "family": kind}
+        fails, what, uc = near_one(ucmod, cell, cen, dsmax, route, tol)
+        chk.traces += 1
+        chk.case(("near", cell, cen, dsmax, route), nontrivial=len(uc.peaks) > 0)
+        done += 1
+        if fails:
+            tally.add("near:" + fails[0], len(uc.peaks),
+                      "gethkls[%s] on the %s cell (%r %r %r %r %r %r) %s dsmax=%r, judged against the reciprocal metric "
+                      "computed from the cell parameters at a tolerance of 1e-9 relative to d*: %s; %s"
+                      % ((route, kind) + tuple(cell) + (cen, dsmax, ",".join(fails), what)), case)
+        elif len(uc.peaks) <= 160 and getattr(uc, "ringds", None) and L.margins_ok([p[0] for p in uc.peaks], tol):
+            tid = len(tally.ring_traces)
+            try:
+                tally.ring_traces.append(L.ring_trace(uc, tol, tid, "makerings"))
+                tally.ring_params[tid] = {"kind": "rings", "cell": list(cell), "cen": cen, "limit": uc.limit - tol, "tol": tol,
+                                          "route": "makerings"}
+                chk.traces += 1
+            except L.Unmappable as e:
+                tally.add("rings:unmappable", len(uc.peaks), "ring table cannot be mapped on the list: %s" % e, case)
+    return done
+
+
+# ----------------------------------------------------------------------------------------------
+# object histories (specs/HklObject.tla): public calls that do not finish, re-entrant requests
+
+HIST_INSTANCES = [   # (reciprocal form, centring, limits 1..3 as Q limits, realisation)
+    ([1, 1, 1, 0, 0, 0], "I", [3, 5, 9], "lo"), ([2, 2, 1, 0, 0, 1], "P", [3, 6, 10], "hi"),
+    ([3, 4, 5, 1, -1, 1], "F", [20, 28, 40], "lo"), ([2, 3, 4, 0, 1, 0], "C", [7, 11, 16], "hi"),
+    ([2, 2, 2, 1, 1, 1], "R", [7, 10, 16], "lo"), ([1, 2, 3, 0, 0, 0], "B", [4, 7, 11], "hi"),
+    ([4, 5, 6, -2, 1, -1], "P", [6, 9, 14], "lo")]
+
+
+class HistInstance(object):
+    def __init__(self, ucmod, k):
+        import c03_big as BG
+        self.k = k
+        self.g, self.cen, self.lims, self.mode = HIST_INSTANCES[k]
+        self.cell, self.scale = L.cell_from_form(self.g, mode=self.mode)
+        self.brute = [None] + [L.brute_py(self.g, q, self.cen) for q in self.lims]
+        self.tol = min(1e-3, L.exact_gap(self.g, self.scale, self.lims[-1]) / 4.0)
+        self.d, self.limit = [None], [None]
+        for q in self.lims:
+            d0 = L.dsmax_for(q, self.scale, False)
+            lim = BG.split_limit(d0, self.tol)
+            self.limit.append(lim if lim is not None else d0 - self.tol)
+            self.d.append(float(self.limit[-1] + self.tol))        # makerings(limit, tol) asks gethkls for exactly d
+        self.ncalls = {}
+        for x in (1, 2, 3):
+            if not self.brute[x]:
+                raise common.MachineryError("object histories: empty list for instance %d limit %d" % (k, x))
+            _, n1, _ = L.profiled(lambda: ucmod.unitcell(self.cell, self.cen).gethkls(self.d[x]), "gethkls", -1, None)
+            _, n2, _ = L.profiled(lambda: ucmod.unitcell(self.cell, self.cen).makerings(self.limit[x], self.tol), "makerings", -1, None)
+            self.ncalls[("x1", x)] = self.ncalls[("n", x)] = n1
+            self.ncalls[("x2", x)] = n2
+
+    def judge_list(self, peaks, x):
+        fails = []
+        real = [tuple(int(v) for v in p[1]) for p in peaks]
+        if set(real) != self.brute[x]:
+            fails.append("%d reflections of the limit missing, %d listed that are not below it"
+                         % (len(self.brute[x] - set(real)), len(set(real) - self.brute[x])))
+        if len(set(real)) != len(real):
+            fails.append("duplicates")
+        qs = [L.Q(self.g, h) for h in real]
+        if any(qs[i] > qs[i + 1] for i in range(len(qs) - 1)):
+            fails.append("not ascending")
+        if any(not L.close(p[0], math.sqrt(float(L.Fr(q) / self.scale))) for p, q in zip(peaks, qs)):
+            fails.append("ds value")
+        return fails
+
+
+def history_one(ucmod, inst, hist, variant):
+    """replay one history of HklObject.tla into ONE real unitcell object; returns a list of failures
+    (every COMPLETED call must return the list / ring table of its own argument)"""
+    uc = ucmod.unitcell(inst.cell, inst.cen)
+    out = []
+    for step, op in enumerate(hist):
+        x, inj, y = op["x"], op["inj"], op["y"]
+        nested = []
+        n, action, body = -1, None, "gethkls"
+        if inj in ("x1", "x2", "n"):
+            body = "makerings" if inj == "x2" else "gethkls"
+            N = inst.ncalls[(inj, x)]
+            n = (1, (N + 1) // 2, N)[(variant + step) % 3]
+            if inj == "n":
+                def action(y=y):
+                    nested.append(list(uc.gethkls(inst.d[y])))
+            else:
+                exc = (L.Injected, KeyboardInterrupt, MemoryError)[(variant // 3 + step) % 3]
+
+                def action(exc=exc):
+                    raise exc("injected by the harness")
+        if op["op"] == "rings":
+            fn = lambda: uc.makerings(inst.limit[x], inst.tol)
+        else:
+            fn = lambda: uc.gethkls(inst.d[x])
+        what = "call %d: %s(%s)%s" % (step + 1, "makerings" if op["op"] == "rings" else "gethkls", "limit %d" % x,
+                                      {"": "", "x1": " with an exception at call %d made by gethkls" % n,
+                                       "x2": " with an exception at call %d made by makerings" % n,
+                                       "n": " with a complete gethkls(limit %d) at call %d made by gethkls" % (y, n)}[inj])
+        try:
+            r, cnt, fired = L.profiled(fn, body, n, action)
+        except (L.Injected, KeyboardInterrupt, MemoryError) as e:
+            if "injected by the harness" not in str(e):
+                raise
+            continue                    # the call did not finish: nothing to judge, the object is used again
+        for pk in nested:
+            f = inst.judge_list(pk, y)
+            if f:
+                out.append("%s: the nested call returns a list that is not the list of limit %d: %s" % (what, y, f))
+        if op["op"] == "rings":
+            f = inst.judge_list(uc.peaks, x)
+            if not f:
+                f = L.judge_rings_exact(inst.g, inst.scale, uc, inst.tol)
+            if f:
+                out.append("%s: list / ring table is not that of its arguments: %s" % (what, f))
+        else:
+            f = inst.judge_list(r, x)
+            if uc.limit != inst.d[x] or (uc.peaks is not r and [list(p) for p in uc.peaks] != [list(p) for p in r]):
+                f.append("state(unitcell.peaks/limit) is not the returned list / the asked limit")
+            if f:
+                out.append("%s: returned list is not that of its argument: %s" % (what, f))
+        if out:
+            break
+    return out
+
+
+def object_histories(chk, ucmod, hists, tally, thorough):
+    """every history emitted by HklObject.tla on real objects (instances and injection points rotate)"""
+    insts = {}
+    s = common.seed()
+    nint = 0
+    for i, h in enumerate(hists):
+        # quick tier: injections the model calls vacuous (the call is a cache hit: gethkls makes no call at which
+        # anything could be injected) are replayed for every 6th such history only
+        if not thorough and (i + s) % 6 and any(o["done"] and (o["inj"] == "x1" or (o["inj"] == "n" and o["nret"] == 0))
+                                                for o in h["hist"]):
+            continue
+        k = (i + s) % len(HIST_INSTANCES)
+        if k not in insts:
+            insts[k] = HistInstance(ucmod, k)
+        variant = (i // len(HIST_INSTANCES) + s) % 9
+        hist = h["hist"]
+        fails = history_one(ucmod, insts[k], hist, variant)
+        chk.traces += 1
+        nint += any(not o["done"] or o["inj"] == "n" for o in hist)
+        chk.case(("objhist", i, k, variant), nontrivial=any(not o["done"] or o["inj"] == "n" for o in hist))
+        if fails:
+            inst = insts[k]
+            tally.add("object-history:" + ("after an interrupted call" if any(not o["done"] for o in hist) else
+                                           "re-entrant call" if any(o["inj"] == "n" for o in hist) else "plain"),
+                      # (a wrong list is the better witness than a wrong state: it is kept first)
+                      (0 if "reflections of the limit" in fails[0] else 1) + sum(o["inj"] == "n" for o in hist),
+                      "ONE unitcell(%s, %s) object, limits 1..3 = d* %s: %s   [history %s]"
+                      % (inst.cell, inst.cen, inst.d[1:], fails[0],
+                         " ; ".join("%s(%d)%s%s" % (o["op"], o["x"], "/" + o["inj"] if o["inj"] else "", "(%d)" % o["y"] if o["inj"] == "n" else "")
+                                    for o in hist)),
+                      {"kind": "objhist", "instance": k, "variant": variant, "hist": hist})
+    return nint
+
+
+# ----------------------------------------------------------------------------------------------
 # BIG instances (HklWalk SpecBig): replayed by c03_big.py in parallel worker processes
 
 def big_jobs(recs, thorough, table):
@@ -368,11 +601,36 @@ def big_collect(chk, procs, tally, timeout=3600):
         except Exception:
             p.kill()
             raise common.MachineryError("BIG worker timed out")
-        if p.returncode != 0 or not os.path.exists(fout):
-            machinery.append("BIG worker failed (rc %s): %s" % (p.returncode, (outtxt or "")[-1500:]))
-            continue
-        with open(fout) as f:
-            results = json.load(f)
+        results = []
+        if os.path.exists(fout):
+            with open(fout) as f:
+                results = json.load(f)          # (written after every job: the finished ones of a crashed worker count)
+        if p.returncode != 0 or len(results) != len(js):
+            # the worker died.  A death caused by the tree under test - killed by a signal (segmentation fault, abort,
+            # floating point exception ...) or a traceback through ImageD11 while a case was being replayed - is a
+            # VIOLATION with that case as replay object; the cases behind it were not replayed (noted as machinery,
+            # which run.py reports after the violation).  Anything else is a machinery error.
+            cur = None
+            try:
+                cur = int(open(fout + ".current").read())
+            except (OSError, ValueError):
+                pass
+            tail = (outtxt or "")[-1500:]
+            fatal = p.returncode is not None and p.returncode < 0 and -p.returncode in (4, 6, 7, 8, 11)
+            if cur is not None and cur == len(results) and cur < len(js) and (fatal or "/ImageD11/" in tail):
+                job = js[cur]
+                cell, _ = L.cell_from_form(job["rec"]["g"], mode=job["opts"].get("mode", "lo"))
+                r = {"fails": [{"label": "crash", "size": 0,
+                                "what": "BIG case %s: the worker process replaying it died (%s): %s"
+                                        % ([job["rec"]["g"], job["rec"]["lim"], job["rec"]["cen"]],
+                                           "signal %d" % -p.returncode if p.returncode < 0 else "exit code %s" % p.returncode, tail[-600:]),
+                                "case": {"kind": "big", "rec": job["rec"], "opts": job["opts"], "cell": list(cell), "cen": job["rec"]["cen"]}}],
+                     "ring_traces": [], "lists": 0, "ringtables": 0, "skipped": {}}
+                results.append(r)
+                if len(results) < len(js):
+                    machinery.append("BIG worker died on case %d of %d: the cases behind it were not replayed" % (cur + 1, len(js)))
+            else:
+                machinery.append("BIG worker failed (rc %s) outside the replay of a case: %s" % (p.returncode, tail))
         for job, r in zip(js, results):
             if r.get("machinery"):
                 machinery.append(r["machinery"])
@@ -576,6 +834,10 @@ def run(tier, replay=None):
     fut["prop"] = pool.submit(common.run_tlc, "HklWalk", _cfg("prop", table), workers=2, timeout=600)
     fut["enum"] = pool.submit(common.run_tlc, "TraceRings", os.path.join(common.SPECS, "TraceRings_enum.cfg"),
                               workers=2, timeout=600, coverage=thorough)
+    fut["obj"] = pool.submit(common.run_tlc, "HklObject", os.path.join(common.SPECS, "HklObject_%s.cfg" % ("t" if thorough else "q")),
+                             workers=2, timeout=900, coverage=True)
+    fut["objnon"] = pool.submit(common.run_tlc, "HklObject", os.path.join(common.SPECS, "HklObject_limitfirst.cfg"),
+                                workers=1, timeout=600)
     if thorough:
         fut["orth"] = pool.submit(common.run_tlc, "HklWalk", os.path.join(common.SPECS, "HklWalk_orth.cfg"),
                                   workers=4, timeout=1200)
@@ -701,6 +963,37 @@ def run(tier, replay=None):
     except CodeRaised:
         pass
     _mark("random ring cases")
+    # ---- near-degenerate float cells at every scale (d-star against the harness' own metric, relative tolerance)
+    try:
+        guarded(tally, "gethkls / makerings on a near-degenerate cell", {"kind": "none"}, near_degenerate_cases,
+                chk, ucmod, 640 if thorough else 128, tally, rng)
+    except CodeRaised:
+        pass
+    _mark("near-degenerate cells")
+    # ---- object histories of HklObject.tla: interrupted and re-entrant public calls on one object
+    ores = fut["obj"].result()
+    if ores.violated:
+        raise common.MachineryError("HklObject: invariant %s violated on the model of the code at HEAD (specification error)\n%s"
+                                    % (ores.violated, ores.stdout[-1500:]))
+    chk.add_tlc("HklObject histories", ores)
+    for a in OBJ_ACTIONS:
+        if ores.coverage and ores.coverage.get(a, (0, 0))[1] == 0:
+            raise common.MachineryError("vacuity: HklObject action %s never taken" % a)
+    nres = fut["objnon"].result()
+    if nres.error or not nres.violated:
+        raise common.MachineryError("HklObject_limitfirst: the documented non-theorem is not refuted by TLC (%s)" % (nres.error,))
+    chk.notes["tlc_object_model"] = {"write order list-first (HEAD)": "RetInv CacheInv RingInv hold",
+                                     "write order limit-first": "violates %s" % ",".join(nres.violated)}
+    hists = [json.loads(x) for x in ores.printed]
+    if not hists:
+        raise common.MachineryError("HklObject emitted no histories")
+    try:
+        nint = guarded(tally, "public calls on one object (interrupted / re-entrant)", {"kind": "none"}, object_histories,
+                       chk, ucmod, hists, tally, thorough)
+        chk.notes["object_histories"] = {"replayed": len(hists), "with an interrupted or re-entrant call": nint}
+    except CodeRaised:
+        pass
+    _mark("object histories")
     bres, bigrecs, bigprocs = fut["biglaunch"].result()
     if bigrecs is None:
         if bres.violated:
@@ -746,7 +1039,9 @@ def run(tier, replay=None):
     chk.notes["not_judged"] = tally.skipped
     chk.rule = ("every (form, limit, centring) record emitted by TLC is replayed, BIG records (candidate boxes of "
                 "1.2e5 .. 2.0e6 hkl) included; non-trivial = at least one "
-                "reflection in range; ring traces non-trivial = some ring has more than one member")
+                "reflection in range; ring traces non-trivial = some ring has more than one member; seeded near-degenerate "
+                "float cells; every object history emitted by HklObject (quick: model-vacuous injections every 6th), "
+                "non-trivial = a call is interrupted or overlapped")
     chk.exhaustive = True
     chk.assumptions = ["|h|,|k|,|l| < 200 (gethkls docstring): the CAP instance is conformance only",
                        "property judged on forms whose direct cell has angles in [55,125] deg",
@@ -805,6 +1100,22 @@ def do_replay(chk, path, ucmod, idxmod):
                     tally.add("ringtrace:" + why, len(tally.ring_traces[tid]["ds"]),
                               "TraceRings rejects rings %s of the table: clause %s" % (tally.ring_params[tid].get("window"), why),
                               tally.ring_params[tid])
+    elif case["kind"] == "near":
+        fails, what, uc = near_one(ucmod, tuple(case["cell"]), case["cen"], case["dsmax"], case["route"], case["tol"])
+        chk.traces += 1
+        chk.case(("replay", path))
+        print("replay %s: near-degenerate cell %s %s dsmax=%r route %s: %d listed; failed clauses %s"
+              % (path, case["cell"], case["cen"], case["dsmax"], case["route"], len(uc.peaks), fails))
+        if fails:
+            tally.add("near:" + fails[0], len(uc.peaks), "%s; %s" % (",".join(fails), what), case)
+    elif case["kind"] == "objhist":
+        inst = HistInstance(ucmod, case["instance"])
+        fails = history_one(ucmod, inst, case["hist"], case["variant"])
+        chk.traces += 1
+        chk.case(("replay", path))
+        print("replay %s: one unitcell(%s, %s) object, history %s: %s" % (path, inst.cell, inst.cen, case["hist"], fails or "every completed call returns the list of its argument"))
+        if fails:
+            tally.add("object-history", len(case["hist"]), fails[0], case)
     elif case["kind"] == "history":
         recs = [{"g": case["g"], "cen": case["cen"], "tie": case["tie"], "tieaxial": True, "lim": l}
                 for l in sorted(set(case["lims"]))]
@@ -946,6 +1257,35 @@ def selftest(ucmod=None, idxmod=None):
     r2 = {"g": g, "lim": lim, "cen": cen, "rule": cen, "box": [0, 0, 0], "nbox": 0, "nb": brute.summary()["nb"] + 1}
     if not BG.big_case(ucmod, idxmod, r2, {"mode": "hi"}).get("machinery"):
         raise common.MachineryError("selftest: a wrong brute-force count in the TLC record is not noticed")
+    # near-degenerate binding: a d-star off by 1e-7 (relative), a dropped / an added reflection must be rejected
+    ncell, ncen, nd = (30.0, 28.0, 25.0, 90.0, 90.0, 90.04), "P", 0.2
+    nuc = ucmod.unitcell(ncell, ncen)
+    npk = [list(p) for p in nuc.gethkls(nd)]
+    f0, _ = L.judge_float_list(ncell, ncen, nd, npk, nuc.B)
+    if f0:
+        raise common.MachineryError("selftest: baseline near-degenerate list does not pass: %s" % f0)
+    for pk, whatn, clause in ((npk[:5] + [[npk[5][0] * (1 + 1e-7), npk[5][1]]] + npk[6:], "one ds off by 1e-7", "ds-value"),
+                             (npk[:5] + npk[6:], "one reflection dropped", "incomplete"),
+                             (npk + [[0.3, (9, 9, 9)]], "one reflection beyond the limit", "unsound"),
+                             ([[math.sqrt(p[0] ** 2 - 2 * p[1][0] * p[1][1] * L.exact_gi(ncell)[0, 1]), p[1]] for p in npk],
+                              "cross term of the metric dropped", "ds-value")):
+        ff, _ = L.judge_float_list(ncell, ncen, nd, pk, nuc.B)
+        if clause not in ff:
+            raise common.MachineryError("selftest: near-degenerate list with %s not rejected by clause %s (%s)" % (whatn, clause, ff))
+    # object histories: the list of another limit must be rejected; an injected exception must come out of the call
+    hi = HistInstance(ucmod, 0)
+    huc = ucmod.unitcell(hi.cell, hi.cen)
+    if hi.judge_list(huc.gethkls(hi.d[2]), 2) or not hi.judge_list(huc.gethkls(hi.d[1]), 2) or not hi.judge_list(huc.gethkls(hi.d[3]), 2):
+        raise common.MachineryError("selftest: object history judge does not tell the lists of different limits apart")
+
+    hooked = []
+    try:
+        L.profiled(lambda: ucmod.unitcell(hi.cell, hi.cen).gethkls(hi.d[2]), "gethkls", 3,
+                   lambda: (_ for _ in ()).throw(L.Injected("injected by the harness")))
+    except L.Injected:
+        hooked.append(1)
+    if not hooked:
+        raise common.MachineryError("selftest: the injected exception does not come out of gethkls")
     # ring trace: corrupt one recorded field -> TraceRings must reject it
     uc = ucmod.unitcell(cell, "P")
     uc.makerings(dsmax - 1e-4, 1e-4)
